@@ -17,7 +17,7 @@
      strict e      = no && || ?: and no enum operand under a bit operator *)
 From Coq Require Import ZArith Bool List.
 From NV Require Import Arith.NumTy Arith.VMOps Arith.Promote Arith.RtEval Arith.Constred
-  Arith.ConstredProofs.
+  Arith.ConstredProofs Arith.Enumred Arith.EnumredProofs.
 Local Open Scope Z_scope.
 
 Theorem fold_agrees_with_runtime_partial : forall e t e',
@@ -103,6 +103,28 @@ Print Assumptions fold_never_crashes_refuted.
 Theorem run_never_traps : forall e, run e <> Crash SigFpe.
 Proof. exact ConstredProofs.run_never_traps. Qed.
 Print Assumptions run_never_traps.
+
+(* ---- front/enumred.c (enumerator initialisers), Arith/Enumred.v -------------------------
+   proved on trees over int and bool literals without ?:, == != and conversions (int_only);
+   the rest of enumred.c (?: reduced again, enumerator references) is tied by the
+   correspondence runs of checks/c10.py only *)
+Theorem enumred_agrees_with_runtime_partial : forall e t e',
+  ty_of e = Some t -> emit_ok e = true -> int_only e = true ->
+  efold e = FOk e' -> ty_of e' = Some t /\ rt_eval e' = rt_eval e.
+Proof. exact EnumredProofs.enumred_agrees_with_runtime_partial. Qed.
+Print Assumptions enumred_agrees_with_runtime_partial.
+
+Theorem enum_index_is_runtime_value : forall e z,
+  ty_of e = Some TInt -> emit_ok e = true -> int_only e = true ->
+  enum_index e = Some z -> rt_eval e = Val (VInt z).
+Proof. exact EnumredProofs.enum_index_is_runtime_value. Qed.
+Print Assumptions enum_index_is_runtime_value.
+
+(* enumred.c still divides with the raw C operator: INT_MIN / -1 traps in the compiler *)
+Theorem enumred_never_crashes_refuted :
+  exists e v, ty_of e = Some TInt /\ int_only e = true /\ efold e = FCrash /\ rt_eval e = Val v.
+Proof. exact EnumredProofs.enumred_never_crashes_refuted. Qed.
+Print Assumptions enumred_never_crashes_refuted.
 
 (* the theorems apply to everything the typechecker accepts *)
 Theorem elab_well_typed : forall s e t, elab s = Some (e, t) -> ty_of e = Some t.
